@@ -53,6 +53,7 @@ type Contract struct {
 	Ensures    []*Clause
 	Modifies   []string
 	Loops      map[int][]*Clause
+	LoopAsserts map[int][]*Clause // proved at every back edge, then available to the invariant proofs
 	Implements string
 	Opts       map[string]string
 	Src        string
@@ -243,6 +244,15 @@ func (S *Specs) loadSpecFile(path string, repoFile bool, pkg string) error {
 			}
 			r2 := strings.TrimSpace(strings.TrimPrefix(rest, fields[1]))
 			m := reTagged.FindStringSubmatch(r2)
+			if m != nil && m[1] == "assert" {
+				cl := &Clause{Kind: "lassert", Tags: parseTags(m[2]), Text: m[3], Src: src, Loop: n}
+				if cur.LoopAsserts == nil {
+					cur.LoopAsserts = map[int][]*Clause{}
+				}
+				cur.LoopAsserts[n] = append(cur.LoopAsserts[n], cl)
+				last = cl
+				continue
+			}
 			if m == nil || m[1] != "invariant" {
 				return fmt.Errorf("%s: expected 'loop N invariant expr'", src)
 			}
@@ -338,6 +348,9 @@ func (S *Specs) finish() error {
 		all = append(all, c.Requires...)
 		all = append(all, c.Ensures...)
 		for _, l := range c.Loops {
+			all = append(all, l...)
+		}
+		for _, l := range c.LoopAsserts {
 			all = append(all, l...)
 		}
 		for _, cl := range all {
